@@ -122,7 +122,8 @@ let model_line (l : string) : string =
     let karr = Array.of_list kinds in
     let valid = if valid_trace c tr then " valid" else " invalid" in
     let pending = List.length (List.filter (fun o -> o.o_code <> None) s.w_ops) in
-    let ghost = Printf.sprintf " # bad=%d handed=%d updates=%d pending=%d" (if s.w_bad then 1 else 0) (int_of_n s.w_handed) (int_of_n s.w_updates) pending in
+    let inv = if inv_ok (prun c tr) then 1 else 0 in
+    let ghost = Printf.sprintf " # bad=%d handed=%d updates=%d pending=%d inv=%d" (if s.w_bad then 1 else 0) (int_of_n s.w_handed) (int_of_n s.w_updates) pending inv in
     (match s.w_err with
      | Some WkAbort -> "ABORT" ^ valid ^ ghost
      | _ ->
@@ -133,4 +134,19 @@ let model_line (l : string) : string =
        (match s.w_err with Some p -> base ^ " PANIC:" ^ panic_name p | None -> base) ^ valid ^ ghost)
   | _ -> failwith "bad header"
 
-let () = Util.iter_lines model_line
+(* mode "explore": "<v0> <v1> | <kind> <kind>" -> "<all states satisfy inv_ok: 0|1> <number of reachable states>" *)
+let rec nat_to_int = function O -> 0 | S n -> 1 + nat_to_int n
+let explore_line (l : string) : string =
+  match String.split_on_char '|' l with
+  | [hdr; ks] ->
+    (match List.map parse_num (Util.split_ws hdr) with
+     | [v0; v1] ->
+       let c = { wc_v2_0 = v0 >= 2; wc_v2_1 = v1 >= 2; wc_kinds = List.map parse_kind (Util.split_ws ks) } in
+       let (ok, n) = explore_cfg2 c in
+       Printf.sprintf "%d %d" (if ok then 1 else 0) (nat_to_int n)
+     | _ -> failwith "bad header")
+  | _ -> failwith "need <v0> <v1> | kinds"
+
+let () =
+  let mode = if Array.length Sys.argv > 1 then Sys.argv.(1) else "model" in
+  Util.iter_lines (if mode = "explore" then explore_line else model_line)
